@@ -26,6 +26,10 @@ var strPool = []string{"a", "ab", "abc", "abcd", "abcde", "æµ‹", "æµ‹è¯•", "æµ‹è
 var alphabetRunes = []rune("abcXYZ019 _-.:/æµ‹è¯•éªŒè¯ğŸ˜€Ã©%è°¬")
 
 func genString(t *rapid.T, label string, allowEmpty bool) string {
+	if rapid.IntRange(0, 299).Draw(t, label+"Big") == 151 {
+		// beyond 64 KiB, in characters of three bytes each (character count and byte count are far apart)
+		return strings.Repeat("é•¿", rapid.SampledFrom([]int{21846, 22000, 30000}).Draw(t, label+"BigLen")) + "a"
+	}
 	switch rapid.IntRange(0, 9).Draw(t, label+"Mode") {
 	case 0:
 		if allowEmpty {
